@@ -233,7 +233,7 @@ theorem mju_negPose_eq (p0 p1 p2 q0 q1 q2 q3 : ℝ) :
     have e2 : q2 = 0 := by linarith
     have e3 : q3 = 0 := by linarith
     subst e1 e2 e3; simp
-  · simp only [Prod.mk.injEq]; simp only [and_true, true_and]; refine ⟨?_, ?_, ?_⟩ <;> ring
+  · simp only [Prod.mk.injEq]; simp only [and_true]; refine ⟨?_, ?_, ?_⟩ <;> ring
 
 theorem mju_trnVecPose_eq (p0 p1 p2 q0 q1 q2 q3 v0 v1 v2 : ℝ) :
     mju_trnVecPose p0 p1 p2 q0 q1 q2 q3 v0 v1 v2 =
@@ -263,5 +263,27 @@ theorem mju_subQuat_eq (a0 a1 a2 a3 b0 b1 b2 b3 : ℝ) :
   simp only [mju_subQuat, mju_quat2Vel, mju_mulQuat, mju_normalize3, real_ofInt]
   push_cast
   rfl
+
+theorem unit3_of_div (a b c n : ℝ) (hn : 0 < n) (hsq : n * n = a*a + b*b + c*c) :
+    a / n * (a / n) + b / n * (b / n) + c / n * (c / n) = 1 := by
+  have hne : n ≠ 0 := ne_of_gt hn
+  have e : a / n * (a / n) + b / n * (b / n) + c / n * (c / n) = (a*a + b*b + c*c) / (n * n) := by
+    field_simp
+  rw [e, ← hsq]
+  exact div_self (mul_ne_zero hne hne)
+
+theorem unit4_of_div (a b c d n : ℝ) (hn : 0 < n) (hsq : n * n = a*a + b*b + c*c + d*d) :
+    a / n * (a / n) + b / n * (b / n) + c / n * (c / n) + d / n * (d / n) = 1 := by
+  have hne : n ≠ 0 := ne_of_gt hn
+  have e : a / n * (a / n) + b / n * (b / n) + c / n * (c / n) + d / n * (d / n)
+      = (a*a + b*b + c*c + d*d) / (n * n) := by
+    field_simp
+  rw [e, ← hsq]
+  exact div_self (mul_ne_zero hne hne)
+
+theorem sumsq3_nonneg (a b c : ℝ) : 0 ≤ a*a + b*b + c*c :=
+  add_nonneg (add_nonneg (mul_self_nonneg a) (mul_self_nonneg b)) (mul_self_nonneg c)
+theorem sumsq4_nonneg (a b c d : ℝ) : 0 ≤ a*a + b*b + c*c + d*d :=
+  add_nonneg (sumsq3_nonneg a b c) (mul_self_nonneg d)
 
 end MjProof.Spatial
